@@ -60,7 +60,12 @@ func (p *TriggerPool) Start(ctx context.Context) context.Context {
 	// context.Done() and context.Err() for context that can be cancelled use a Lock.
 	// To avoid frequent locking - use an atomic.Bool for cancellation instead of checking the
 	// context on each iteration
+	// the stop path reports still pending work as dropped: completion has to wait
+	// for it, otherwise the final totals can be taken before those drops are recorded
+	p.manager.runningWorkers.Add(1)
 	go func() {
+		defer p.manager.runningWorkers.Done()
+
 		<-workerCtx.Done()
 		p.stop()
 	}()
